@@ -117,6 +117,20 @@ def points(tier: str) -> List[Dict[str, Any]]:
                 pts.append({"cache": {"srv": st_srv, "txt": "fresh", "a": st_a, "aaaa": "absent"}, "timeout": 3000,
                             "arrive": ({"srv": arr} if st_srv != "fresh" else {}) | {"aaaa": "never"}, "forced": None,
                             "extra": True})
+    # the device goes away while it is asked: a goodbye (TTL 0) for exactly the expired-but-unpurged copy arrives 50 ms into the
+    # lookup (a goodbye only reaches listeners when an equal record is cached) - a record that has expired when it is read
+    for cache in itertools.product(STATES, repeat=4):
+        st = dict(zip(KINDS, cache))
+        gone = [k for k in KINDS if st[k] == "expired"]
+        if not gone:
+            continue
+        missing = [k for k in KINDS if st[k] in ("absent", "expired")]
+        for others in ("never", 250):
+            for together in (False, True):
+                if together and len(gone) < 2:
+                    continue
+                pts.append({"cache": st, "timeout": 1000, "arrive": {k: ("never" if k in gone else others) for k in missing},
+                            "forced": None, "extra": False, "bye": gone, "bye_together": together})
     pts += [dict(q, names="sharp") for q in pts[::9]]
     # the same lookups through the convenience entry points of Zeroconf and AsyncZeroconf (every 11th point, and every point
     # with a forced question type and nothing cached)
@@ -228,6 +242,10 @@ def _run_point(p: Dict[str, Any], verbose: bool = False) -> Tuple[Optional[Dict[
                 n += 1
                 w.loop.call_at((t0 + off) / 1000, w.net.inject, host, wire.encode(100 + n, 0x8400, (), [GOOD[k]]),
                                ("10.0.0.50", 5353))
+        if p.get("bye"):
+            byes = [OLD[k][:3] + (0,) + OLD[k][4:] for k in p["bye"]]
+            for j, grp in enumerate([byes] if p.get("bye_together") else [[b] for b in byes]):
+                w.loop.call_at((t0 + 50 + j) / 1000, w.net.inject, host, wire.encode(200 + j, 0x8400, (), grp), ("10.0.0.50", 5353))
         forced = {None: None, "QU": DNSQuestionType.QU, "QM": DNSQuestionType.QM}[p["forced"]]
         info = AsyncServiceInfo(TYPE, NAME)
         done: Dict[str, Any] = {}
